@@ -141,6 +141,9 @@ def gen(rng, tier):
           'second_root': rng.random() < 0.3 and nfiles > 1,
           'repeat_root': rng.random() < 0.5,
           'finalize': rng.choice([None, True, False]),
+          # skip_unknown in its various forms (no file names anything unknown,
+          # so it changes nothing)
+          'skip_form': rng.choice([None, None, 'true', 'list', 'tuple', 'set']),
           'unknown_in_extra': rng.random() < 0.2,
           'layout_seed': rng.getrandbits(32),
           'only': None}
@@ -369,7 +372,7 @@ def _run(case, scratch):
     exc = None
     result = None
     try:
-      result = gin.parse_config_file(root)
+      result = gin.parse_config_file(root, **_skip_kwargs(case))
     except Exception as e:  # pylint: disable=broad-except
       exc = e
     got = _snapshot()
@@ -614,6 +617,15 @@ def _abs_vs_package(case, scratch, v, lg, cnt):
       'unreadable absolute name raised %s' % type(exc).__name__)
 
 
+def _skip_kwargs(case):
+  form = case.get('skip_form')
+  names = ['nothing_of_this_name_zz', 'nor.this']
+  if form is None:
+    return {}
+  return {'skip_unknown': {'true': True, 'list': names, 'tuple': tuple(names),
+                           'set': set(names)}[form]}
+
+
 def _entry(case, scratch, v, lg, cnt):
   """The multi-file entry point: files in order, then bindings, then finalize."""
   gin = world.gin
@@ -640,6 +652,8 @@ def _entry(case, scratch, v, lg, cnt):
   kwargs = {}
   if case['finalize'] is not None:
     kwargs['finalize_config'] = case['finalize']
+  if not case.get('unknown_in_extra'):
+    kwargs.update(_skip_kwargs(case))
   exc = None
   try:
     gin.parse_config_files_and_bindings(roots, extra, **kwargs)
